@@ -388,6 +388,9 @@ def parseBOp {τ : Type} (mk : String → M τ) (a : List String) : M (BOp τ) :
   | "pname" => return .pName (← unh (← argAt a 1))
   | "pver" => return .pVer (← unh (← argAt a 1))
   | "psub" => return .pSub (← unh (← argAt a 1))
+  | "tns" => return .pNs []      -- emptied in place: the empty string
+  | "tver" => return .pVer []
+  | "tsub" => return .pSub []
   | "pq" =>
     let op ← parseQOp ((← argAt a 1).splitOn ".")
     typedIndexOk op
